@@ -42,6 +42,9 @@ def main(argv=None):
     args = ap.parse_args(argv)
     seed = int(os.environ.get("VERIF_SEED", "0") or 0)
     t0 = time.time()
+    # measured from before the package is first imported, so that module-level statements count as executed
+    ccov = fw.CodeCoverage()
+    ccov.start()
     PROPS = registry()
     if args.prop not in PROPS:
         print(f"unknown property {args.prop}")
@@ -115,6 +118,8 @@ def main(argv=None):
     except Exception:  # noqa: BLE001
         print("INFRA: exploration crashed\n" + traceback.format_exc())
         return 2
+    finally:
+        res.code_coverage = ccov.stop()
 
     # 5. known findings
     kf = fw.load_known_findings()
